@@ -16,6 +16,7 @@ type FuncResult struct {
 	VC          *VC
 	Err         string // tool limitation (unsupported construct / spec error)
 	Obligations []*Obligation
+	Frame       *Frame // top frame after symbolic execution (counterexample replay reads parameters / returns from it)
 }
 
 // invEnv builds the spec environment for loop invariants / asserts inside function bodies:
@@ -52,6 +53,12 @@ func (f *Frame) baseEnv(st *State) *SpecEnv {
 
 // resolveSourceName finds the SSA value holding source variable `name` at loop header h.
 func (f *Frame) resolveSourceName(name string, h *ssa.BasicBlock, st *State, phis map[*ssa.Phi]Term) (SVal, bool) {
+	return f.resolveSourceNameAt(name, h, -1, st, phis)
+}
+
+// resolveSourceNameAt: like resolveSourceName, for a program point inside block h: only debug
+// references that occur before instruction index `before` of h count (before < 0: loop-header rules).
+func (f *Frame) resolveSourceNameAt(name string, h *ssa.BasicBlock, before int, st *State, phis map[*ssa.Phi]Term) (SVal, bool) {
 	vc := f.vc
 	mk := func(t Term, ty types.Type) (SVal, bool) {
 		return SVal{t, &SType{Go: ty, Sort: vc.sorts.sortOf(ty)}}, true
@@ -77,7 +84,7 @@ func (f *Frame) resolveSourceName(name string, h *ssa.BasicBlock, st *State, phi
 		if !(b == h || b.Dominates(h)) {
 			continue
 		}
-		for _, instr := range b.Instrs {
+		for ii, instr := range b.Instrs {
 			d, ok := instr.(*ssa.DebugRef)
 			if !ok {
 				continue
@@ -86,7 +93,11 @@ func (f *Frame) resolveSourceName(name string, h *ssa.BasicBlock, st *State, phi
 			if obj == nil || obj.Name() != name {
 				continue
 			}
-			if b == h {
+			if b == h && before >= 0 {
+				if ii >= before {
+					continue
+				}
+			} else if b == h {
 				// inside the header only refs to values defined before the header count
 				if vi, ok := d.X.(ssa.Instruction); ok && vi.Block() == h {
 					if _, isPhi := d.X.(*ssa.Phi); !isPhi {
@@ -173,6 +184,7 @@ func verifyFunction(prog *Program, db *SpecDB, con *Contract) (res *FuncResult) 
 	f := vc.newFrame(fn, nil)
 	f.contract = con
 	f.top = true
+	res.Frame = f
 	vc.stack = []string{con.Name}
 	st := &State{vars: map[string]Term{}, epoch: 0, pc: "true"}
 	a0 := vc.get(st, "alloc")
